@@ -91,7 +91,8 @@ def _davie_foster_approximation(W, H, h, levy_area_approximation, get_noise):
             # Foster's additional correction to Davie's approximation
             tenth_h = 0.1 * h
             H_squared = H ** 2
-            std = (tenth_h * (tenth_h + H_squared.unsqueeze(-1) + H_squared.unsqueeze(-2))).sqrt()
+            # Conditional variance h^2 / 20 + h / 5 * (H_i^2 + H_j^2), halved as `noise` has variance 2.
+            std = (tenth_h * (0.25 * h + H_squared.unsqueeze(-1) + H_squared.unsqueeze(-2))).sqrt()
         else:  # davie approximation
             # Variance h^2 / 12, halved as `noise` has variance 2.
             std = math.sqrt(0.5 * _r12 * h ** 2)
